@@ -10,6 +10,11 @@ import (
 	_ "verif/harness/prop/c08"
 	_ "verif/harness/prop/c09"
 	_ "verif/harness/prop/c10"
+	_ "verif/harness/prop/c11"
+	_ "verif/harness/prop/c12"
+	_ "verif/harness/prop/c13"
+	_ "verif/harness/prop/c14"
+	_ "verif/harness/prop/c15"
 	_ "verif/harness/prop/c17"
 	_ "verif/harness/prop/c18"
 	_ "verif/harness/prop/c20"
